@@ -300,39 +300,32 @@ def r3_weighted_sum(ctx: Context) -> None:
                 else:
                     term = augs[0].value  # type: ignore[union-attr]
                 lp = getattr(augs[0], "_parent", None)
-                if isinstance(lp, ast.For) and isinstance(lp.target, ast.Tuple) and len(lp.target.elts) == 2 and all(isinstance(x, ast.Name) for x in lp.target.elts) \
-                        and isinstance(lp.iter, ast.Call) and dotted(lp.iter.func) == "enumerate" and len(lp.iter.args) == 1:
-                    # `for k, i in enumerate(S)`: k is a position in S, i a coordinate.  _filter_data pairs filter j with column j of the simulated data
-                    # (C08-R6 / C07-R2), so a term that takes filtered[k] next to real[:, i] compares column k with column i - equal only if S is range(D).
-                    pos, el = lp.target.elts[0].id, lp.target.elts[1].id  # type: ignore[union-attr]
-                    S = lp.iter.args[0]
-                    if str(n.rat(S)) == f"range({D})":
-                        term = _rename(term, pos, el)
-                        idx, rng = el, S
-                    else:
-                        cols = {"simulated": set(), "real": set(), "weight": set()}
-                        inside = {id(y) for c in ast.walk(term) if isinstance(c, ast.Call) and isinstance(c.func, ast.Attribute) and c.func.attr == "compute_loss_1d" for y in ast.walk(c)}
-                        for c in ast.walk(term):
-                            if isinstance(c, ast.Call) and isinstance(c.func, ast.Attribute) and c.func.attr == "compute_loss_1d" and len(c.args) == 2:
-                                for role, a in (("simulated", c.args[0]), ("real", c.args[1])):
-                                    cols[role] |= {x.id for x in ast.walk(a) if isinstance(x, ast.Name) and x.id in (pos, el)}
-                            elif isinstance(c, ast.Subscript) and id(c) not in inside:
-                                cols["weight"] |= {x.id for x in ast.walk(c.slice) if isinstance(x, ast.Name) and x.id in (pos, el)}
-                        used = {frozenset(v) for v in cols.values() if v}
-                        if len(used) > 1:
-                            ctx.fail("R3.term", "BaseLoss.compute_loss:term", f"in `{src(augs[0])[:140]}` the simulated series are selected by `{'/'.join(sorted(cols['simulated']))}` but the real column by "
-                                     f"`{'/'.join(sorted(cols['real']))}` and the weight by `{'/'.join(sorted(cols['weight']))}` while the loop runs over enumerate({src(S)[:40]}): position and coordinate differ as soon as "
-                                     "a coordinate is skipped, so coordinate k of the simulation is compared with coordinate i of the real data", f, augs[0])
-                            continue
-                if isinstance(lp, ast.For) and isinstance(lp.target, ast.Name):
-                    idx, rng = lp.target.id, lp.iter
+                if isinstance(lp, ast.For):
+                    # the loop header is read canonically (sa/util.loop_binding): every name it binds is expressed through the induction symbol _I_, so
+                    # `for i in range(D)`, `for i, block in enumerate(filtered)`, `for block, w in zip(filtered, weights)` give the same term
+                    from ..util import IDX, _substitute, loop_binding
+                    benv, counts = loop_binding(lp.target, lp.iter)
+                    for nm, ve in benv.items():
+                        term = _substitute(term, nm, ve)
+                    idx = IDX
+                    cforms = {str(n.rat(c)) for c in counts}
+                    ok_count = bool(cforms) and cforms <= {D, f"len({filt_atom})", str(n.rat(parse_expr(f"len({w_atom})"))), f"len({w_atom})"}
+                    rng = parse_expr(f"range({real}.shape[1])") if ok_count else lp.iter
                     extra = [s for s in lp.body if s is not augs[0] and not (isinstance(s, ast.Expr) and isinstance(s.value, ast.Constant))]
                     ctx.check(not extra and not lp.orelse, "R3.accumulator", "BaseLoss.compute_loss:loop-body", "the coordinate loop does nothing but accumulate",
                               f"the coordinate loop also executes `{src(extra[0])[:60] if extra else 'else-branch'}`", f, lp)
         elif isinstance(v, ast.Call) and dotted(v.func) in ("sum", "np.sum", "math.fsum") and v.args and isinstance(v.args[0], (ast.GeneratorExp, ast.ListComp)):
             ge = v.args[0]
-            if len(ge.generators) == 1 and isinstance(ge.generators[0].target, ast.Name) and not ge.generators[0].ifs:
-                term, idx, rng = ge.elt, ge.generators[0].target.id, ge.generators[0].iter
+            if len(ge.generators) == 1 and not ge.generators[0].ifs:
+                from ..util import IDX, _substitute, loop_binding
+                benv, counts = loop_binding(ge.generators[0].target, ge.generators[0].iter)
+                term = ge.elt
+                for nm, ve in benv.items():
+                    term = _substitute(term, nm, ve)
+                idx = IDX
+                cforms = {str(n.rat(c)) for c in counts}
+                ok_count = bool(cforms) and cforms <= {D, f"len({filt_atom})", f"len({w_atom})"}
+                rng = parse_expr(f"range({real}.shape[1])") if ok_count else ge.generators[0].iter
         if term is None or idx is None:
             raise AnalysisError(f"{f.loc(r)}: BaseLoss.compute_loss is not in a recognised weighted-sum form (loop accumulate / sum of a comprehension)")
         ctx.check(str(n.rat(rng)) == f"range({D})", "R3.range", "BaseLoss.compute_loss:all-coordinates", "the sum runs over every coordinate range(D), D = real_data.shape[1]",
